@@ -58,11 +58,13 @@ type spec struct {
 	ips       []net.IP
 	cn        string
 	critExt   bool
+	ski       bool
+	aki       string
 	cert      *gx.Certificate
 }
 
 func (s *spec) String() string {
-	return fmt.Sprintf("{#%d %s subj=N%d key=K%d issuer=N%d signer=K%d forged=%v val=%s bc=%v ca=%v mpl=%d ku=%d nc=%v eku=%v dns=%v ips=%v crit=%v}", s.id, s.role, s.subj, s.key, s.issuer, s.signer, s.forged, s.validity, s.bcValid, s.isCA, s.maxPath, s.ku, s.permitted, s.ekus, s.dns, s.ips, s.critExt)
+	return fmt.Sprintf("{#%d %s subj=N%d key=K%d issuer=N%d signer=K%d forged=%v val=%s bc=%v ca=%v mpl=%d ku=%d nc=%v eku=%v dns=%v ips=%v crit=%v ski=%v aki=%s}", s.id, s.role, s.subj, s.key, s.issuer, s.signer, s.forged, s.validity, s.bcValid, s.isCA, s.maxPath, s.ku, s.permitted, s.ekus, s.dns, s.ips, s.critExt, s.ski, s.aki)
 }
 
 type pki struct {
@@ -134,12 +136,23 @@ func build(t *rapid.T, p *pki) {
 		}
 		parent := &gx.Certificate{Subject: nameOf(s.issuer)}
 		if p.useSKI {
-			// SKI is a function of (subject name, key): consistent AKI/SKI by construction
-			tpl.SubjectKeyId = []byte{byte(s.subj), byte(s.key), 0x5a}
-			parent.SubjectKeyId = []byte{byte(s.issuer), byte(s.signer), 0x5a}
-			if s.forged {
-				// a forger names the genuine issuer key in the AKI
-				parent.SubjectKeyId = []byte{byte(s.issuer), byte(s.signer ^ 0x40), 0x5a}
+			// SKI is a function of (subject name, key); the AKI is consistent with it, absent, or stale (it names a
+			// key identifier no certificate of the pools carries - a re-issued or identifier-less parent): key
+			// identifiers are hints, none of the conditions of the property depends on them
+			s.ski = gen.Uniform(t, "ski_present", 4) != 0
+			s.aki = []string{"match", "match", "stale", "none"}[gen.Uniform(t, "aki_mode", 4)]
+			if s.ski {
+				tpl.SubjectKeyId = []byte{byte(s.subj), byte(s.key), 0x5a}
+			}
+			switch s.aki {
+			case "match":
+				parent.SubjectKeyId = []byte{byte(s.issuer), byte(s.signer), 0x5a}
+				if s.forged {
+					// a forger names the genuine issuer key in the AKI
+					parent.SubjectKeyId = []byte{byte(s.issuer), byte(s.signer ^ 0x40), 0x5a}
+				}
+			case "stale":
+				parent.SubjectKeyId = []byte{byte(s.issuer), byte(s.signer), 0xa5, 0x01}
 			}
 		}
 		signKey := keyOf(s.signer)
@@ -161,7 +174,7 @@ func build(t *rapid.T, p *pki) {
 // ---- generator
 
 func drawPKI(t *rapid.T) *pki {
-	p := &pki{useSKI: gen.OneIn(t, "ski", 4)}
+	p := &pki{useSKI: gen.OneIn(t, "ski", 3)}
 	nRoots := rapid.IntRange(1, 3).Draw(t, "nroots")
 	nEnt := rapid.IntRange(0, 4).Draw(t, "nInterEntities")
 	type ent struct{ name, key int }
